@@ -80,3 +80,106 @@ for _w in ("m", "ft"):
     REG.add(Contract(
         "las.LASFile.depth_" + _w, params={"self": API.LAS}, requires=lambda c: API.las_shape(c) + [("has-an-index-curve", API.cv(c).n > 0)],
         raises=[("LASUnknownUnitError", no_unit)], ensures=depth_post(_w), returns=OBJ, properties=("C18",)))
+
+
+# ---------------------------------------------------------------- to_csv: which header rows are written (C18)
+# Block: the statements of LASFile.to_csv from `if mnemonics is True:` up to (not including) the data loop `for i in range(...)`.
+# csv.writer is opaque; a hook on every simple statement containing `writer.writerow(` evaluates the argument and records whether it
+# is the (current) `mnemonics` or `units` object.  Contract: the mnemonic row is written exactly when `mnemonics` is not falsy, the
+# unit row exactly when `units` is not falsy and units_loc == "line", the mnemonic row first, and nothing else is written.
+from pyvc import blocks as _BL
+import ast as _ast3
+
+
+def csv_init(c, st):
+    st.ghost["$rows_m"] = z3.IntVal(0)
+    st.ghost["$rows_u"] = z3.IntVal(0)
+    st.ghost["$rows_x"] = z3.IntVal(0)
+    st.ghost["$u_before_m"] = z3.BoolVal(False)
+
+
+def csv_hook(c, st):
+    n = getattr(st, "hook_node", None)
+    call = getattr(n, "value", None)
+    which = None
+    if isinstance(call, _ast3.Call) and len(call.args) == 1:
+        out = []
+        rs = c.eng.ev(call.args[0], st, out)
+        if len(rs) == 1 and not out:
+            v = rs[0][1]
+            if v is st.env.get("mnemonics"):
+                which = "m"
+            elif v is st.env.get("units"):
+                which = "u"
+    if which == "m":
+        st.ghost["$u_before_m"] = z3.Or(st.ghost["$u_before_m"], st.ghost["$rows_u"] > 0)
+        st.ghost["$rows_m"] = st.ghost["$rows_m"] + 1
+    elif which == "u":
+        st.ghost["$rows_u"] = st.ghost["$rows_u"] + 1
+    else:
+        st.ghost["$rows_x"] = st.ghost["$rows_x"] + 1
+
+
+def csv_verify(E, c):
+    # everything from `if mnemonics is True:` up to (not including) the data loop `for i in range(...)`, however many statements
+    # that is - the header rows are whatever is written before the first data row
+    from pyvc.state import OutOfSubset
+    fn = E.funcs["las.LASFile.to_csv"]
+    found = []
+
+    def visit(stmts):
+        txt = [(_ast3.get_source_segment(E.src["las"], s) or "").strip() for s in stmts]
+        for i, t in enumerate(txt):
+            if t.startswith("if mnemonics is True:"):
+                for j in range(i, len(stmts)):
+                    if isinstance(stmts[j], _ast3.For) and txt[j].startswith("for i in range("):
+                        found.append(stmts[i:j])
+                        return
+        for s_ in stmts:
+            for attr in ("body", "orelse", "finalbody"):
+                sub = getattr(s_, attr, None)
+                if isinstance(sub, list) and sub and isinstance(sub[0], _ast3.stmt):
+                    visit(sub)
+
+    visit(fn.body)
+    if not found:
+        raise OutOfSubset("header-row block of to_csv not found (`if mnemonics is True:` ... `for i in range(`)")
+    return E.verify(c, fnode=fn, body=found[0], module="las")
+
+
+def _csv_truthy(c, name):
+    v = c.a[name]
+    if isinstance(v, VList):
+        return v.n > 0
+    if isinstance(v, VConst):
+        return z3.BoolVal(bool(v.obj))
+    if isinstance(v, VBool):
+        return v.t
+    return None
+
+
+def make_csv(case, mn_ty, un_ty, mn_given, un_given):
+    """mn_given/un_given: z3 Bool builder for 'the caller asked for this row' (True -> the curves' own list, assumed non-empty here)"""
+    def post(c):
+        line = c.a["units_loc"].t == z3.StringVal("line")
+        return [("mnemonic-row-written-exactly-when-asked-for", c.g("$rows_m") == z3.If(mn_given(c), 1, 0)),
+                ("unit-row-written-exactly-when-asked-for-and-units_loc-is-line", c.g("$rows_u") == z3.If(z3.And(un_given(c), line), 1, 0)),
+                ("no-other-row-and-mnemonics-first", z3.And(c.g("$rows_x") == 0, z3.Not(c.g("$u_before_m"))))]
+    return REG.add(Contract(
+        "las.LASFile.to_csv#header-rows", case=case,
+        params={"self": REF("LASFile"), "mnemonics": mn_ty, "units": un_ty, "units_loc": STR, "writer": OBJ},
+        requires=lambda c: API.las_shape(c) + [("some-curves", API.cv(c).n > 0)],
+        ensures=post, ghost_init=csv_init, hooks={"contains:writer.writerow(": csv_hook},
+        verify_with=csv_verify, abstract_exprs=True, may_raise=["Any"], modifies={}, prune=True,
+        properties=("C18",)))
+
+
+from . import las_api as API
+_T, _F = (lambda c: z3.BoolVal(True)), (lambda c: z3.BoolVal(False))
+_LM = lambda c: c.a["mnemonics"].n > 0
+_LU = lambda c: c.a["units"].n > 0
+CSV_TT = make_csv("mnemonics=True,units=True", CONST(True), CONST(True), _T, _T)
+CSV_FT = make_csv("mnemonics=False,units=True", CONST(False), CONST(True), _F, _T)
+CSV_TF = make_csv("mnemonics=True,units=False", CONST(True), CONST(False), _T, _F)
+CSV_FL = make_csv("mnemonics=False,units=list", CONST(False), LIST(STR), _F, _LU)
+CSV_LL = make_csv("mnemonics=list,units=list", LIST(STR), LIST(STR), _LM, _LU)
